@@ -193,11 +193,14 @@ def mog_child(payload):
                     if not d <= 5e-3:
                         fails.append(("n-sigma", f"n_sigma={a} vs {b}: {d:.2e} of the peak (tolerance 5e-3)"))
             elif c["what"] == "interp-vs-direct":
-                a = img(c["kind"], interp=True)
-                b = img(c["kind"], interp=False)
-                d = float(np.abs(a - b).max()) / float(np.abs(b).max())
-                if not d <= 1e-3:
-                    fails.append(("interp-vs-direct", f"interpolated vs direct amplitudes at tabulated n={p['n']:.4f}: {d:.2e} of the peak (tolerance 1e-3)"))
+                for nval in c.get("ns") or [p["n"]]:
+                    P["n"] = jnp.asarray(nval, dtype=ft)
+                    a = img(c["kind"], interp=True)
+                    b = img(c["kind"], interp=False)
+                    d = float(np.abs(a - b).max()) / float(np.abs(b).max())
+                    if not d <= 1e-3:
+                        fails.append(("interp-vs-direct", f"interpolated vs direct amplitudes at tabulated n={nval:.4f}: {d:.2e} of the peak (tolerance 1e-3)"))
+                        break
         except Exception as e:
             fails.append(("exception", f"{type(e).__name__}: {str(e)[:200]}"))
         out.append(dict(fails=fails))
@@ -240,7 +243,10 @@ def gen_mog_cases(rng, n):
         if what == "hybrid-vs-fourier":
             c["nprs"] = [0] + [int(x) for x in rng.choice(np.arange(1, 16), 3, replace=False)]
         if what == "interp-vs-direct":
-            c["p"]["n"] = float(n_ax[int(rng.integers(2, 36))])        # a tabulated index within 0.8…6
+            # tabulated indices: both ends of the table in every case (the rows a coarse σ grid fits worst), four in between
+            idx = [0, 1, 49] + [int(x) for x in rng.choice(np.arange(2, 49), 4, replace=False)]
+            c["ns"] = [float(n_ax[i]) for i in idx]
+            c["p"]["n"] = c["ns"][-1]
         cases.append(c)
     return cases
 
